@@ -91,7 +91,7 @@ fn main() {
     rep.note("assumptions", json!(["inputs without exact ties (generic float positions); residual near-ties are recognised by the reference objective and counted, capped at 0.1% of compared calls"]));
     let ctl = if cli.small { None } else { Some(Controller::install()) };
     let wd = if cli.small { None } else { Some(Watchdog::start(&cli, "C05", ctl.clone())) };
-    let n = cli.cases(56, 1500);
+    let n = cli.cases(96, 1500);
     for idx in cli.index_range(n) {
         let mut rng = Rng::for_case(cli.seed, cli.shard, idx);
         let kind = if idx % 3 == 2 { Kind::Visual } else { Kind::Sort };
